@@ -712,6 +712,7 @@ func c06Length(c *Ctx, p *Prog) {
 
 func c06Drbg(c *Ctx, p *Prog, rule string) {
 	drbgGivenSeedUsed(c, p, rule)
+	resultIsOwnAlloc(c, p, rule, "common/drbg:SeedFromBytes", "a seed that aliased the caller's buffer would change when that buffer is reused")
 	nh := p.Func("common/drbg:NewHashDrbg")
 	nbk := p.Func("common/drbg:(*HashDrbg).NextBlock")
 	ob := c.Obl(rule, "common/drbg:NewHashDrbg#seed-layout", "SipHash-2-4 is keyed with seed[0:16] and the OFB register starts as seed[16:24]")
